@@ -3,6 +3,7 @@ package rules
 import (
 	"fmt"
 	"go/token"
+	"go/types"
 	"sort"
 	"strings"
 
@@ -174,101 +175,297 @@ func c06LockRule(c *rt.Ctx, pkgs []string, table an.LockTable) {
 	}
 	checkValue := func(mc *ssa.MakeClosure, target *ssa.Function, binding func(root string) ssa.Value) (verdict, string) {
 		caller := mc.Parent()
-		for _, ref := range *mc.Referrers() {
-			if _, isDbg := ref.(*ssa.DebugRef); isDbg {
-				continue
+		// the locks the target needs, named in the frame of the function that creates the value
+		type need struct {
+			lock string
+			mode int
+		}
+		var needs []need
+		for _, r := range ls.H06Reqs(target) {
+			root := r.Path
+			rest := ""
+			if i := strings.Index(root, "."); i >= 0 {
+				root, rest = r.Path[:i], r.Path[i:]
 			}
-			ci, isCall := ref.(ssa.CallInstruction)
-			if !isCall {
-				return vUnsure, "function value touching guarded state is stored or returned"
+			b := binding(root)
+			if b == nil {
+				return vUnsure, "cannot map the lock requirement " + r.Path + " of " + an.FuncName(target) + " to the place where the function value is created"
 			}
-			if _, isGo := ref.(*ssa.Go); isGo {
-				return vUnsure, "function value touching guarded state is started as a goroutine"
+			lock := c06LockPath(b, rest)
+			if strings.HasPrefix(lock, "?") {
+				return vUnsure, "cannot name the mutex needed by " + an.FuncName(target) + " (" + lock + ")"
 			}
-			if ci.Common().Value == ssa.Value(mc) {
-				continue // direct call: checked at the call site by the lockset analysis
+			n := need{lock, 1}
+			if r.Write {
+				n.mode = 2
 			}
-			callee := ci.Common().StaticCallee()
-			if callee == nil || !inSet[an.Orig(callee)] && an.Orig(callee).Pkg != caller.Pkg {
-				return vUnsure, "function value touching guarded state is passed to a function outside the package"
-			}
-			idx := -1
-			for i, a := range ci.Common().Args {
-				if a == ssa.Value(mc) {
-					if idx >= 0 {
-						return vUnsure, "function value passed twice"
-					}
-					idx = i
-				}
-			}
-			if idx < 0 {
-				return vUnsure, "function value touching guarded state is passed in an unexpected position"
-			}
-			invs, locking, ok := invocations(callee, idx)
-			if !ok {
-				return vUnsure, "function value touching guarded state is passed to " + an.FuncName(callee) + ", which does more than calling it synchronously"
-			}
-			held := an.H06HeldAt(ci)
-			if locking {
-				// the helper takes the lock itself (`withLock(fn)`): what it holds at every invocation of fn, renamed from
-				// its parameters to the arguments of this call
-				held = nil
-				for _, inv := range invs {
-					h := map[string]int{}
-					for path, mode := range an.H06HeldAt(inv) {
-						root, rest := path, ""
-						if i := strings.Index(path, "."); i >= 0 {
-							root, rest = path[:i], path[i:]
-						}
-						var k int
-						if n, err := fmt.Sscanf(root, "p%d", &k); err != nil || n != 1 || k >= len(ci.Common().Args) {
-							continue
-						}
-						h[an.H06AccessPath(ci.Common().Args[k])+rest] = mode
-					}
-					if held == nil {
-						held = h
-					} else {
-						for k, v := range held {
-							if h[k] < v {
-								held[k] = h[k]
-							}
-						}
-					}
-				}
-			}
-			for _, r := range ls.H06Reqs(target) {
-				root := r.Path
-				rest := ""
-				if i := strings.Index(root, "."); i >= 0 {
-					root, rest = r.Path[:i], r.Path[i:]
-				}
-				b := binding(root)
-				if b == nil {
-					return vUnsure, "cannot map the lock requirement " + r.Path + " of " + an.FuncName(target) + " to the place where the function value is created"
-				}
-				lock := an.H06AccessPath(b) + rest
-				if strings.HasPrefix(lock, "?") {
-					return vUnsure, "cannot name the mutex needed by " + an.FuncName(target) + " (" + lock + ")"
-				}
-				need := 1
-				if r.Write {
-					need = 2
-				}
-				if held[lock] >= need {
+			needs = append(needs, n)
+		}
+		// satisfied: every needed lock is in held, or (byEntry) is an entry requirement of the creating function, which
+		// the lockset analysis enforces at all of its call sites
+		satisfied := func(held map[string]int, byEntry bool) string {
+			for _, n := range needs {
+				if held[n.lock] >= n.mode {
 					continue
 				}
-				// required by the caller on its own entry (enforced at all of the caller's call sites)
 				ok := false
-				for _, cr := range ls.H06Reqs(caller) {
-					if cr.Path == lock && (cr.Write || !r.Write) && !locking {
-						ok = true
+				if byEntry {
+					for _, cr := range ls.H06Reqs(caller) {
+						if cr.Path == n.lock && (cr.Write || n.mode < 2) {
+							ok = true
+						}
 					}
 				}
 				if !ok {
-					return vUnsure, "cannot show that " + lock + " is held when " + an.FuncName(callee) + " invokes the function value"
+					return n.lock
 				}
 			}
+			return ""
+		}
+		// A frame is a function the value has flowed into. The top frame is the creating function (locks are looked up at
+		// each instruction); a nested frame was entered from a call site of its parent frame and, because it operates
+		// no mutex, runs entirely under what was held at that site (ambient); the body of a closure that captured the
+		// value runs under whatever its own invocations hold, and those are tracked separately (assume).
+		type frame struct {
+			top     bool
+			assume  bool
+			byEntry bool
+			ambient map[string]int
+			site    ssa.CallInstruction
+			parent  *frame
+		}
+		var track func(v ssa.Value, fr *frame, depth int) string
+		// captured: literal r binds what (the value, or the cell holding it). Its body (inner decides the free variable)
+		// runs whenever r runs, so r itself is tracked like the value.
+		captured := func(r *ssa.MakeClosure, what ssa.Value, fr *frame, depth int, inner func(fv *ssa.FreeVar) string) string {
+			wf, _ := r.Fn.(*ssa.Function)
+			if wf == nil || wf.Blocks == nil {
+				return "function value touching guarded state is captured by a function without body"
+			}
+			for _, in := range an.Instrs(wf, true) {
+				if _, isGo := in.(*ssa.Go); isGo {
+					return "function value touching guarded state is captured by " + an.FuncName(wf) + ", which starts goroutines"
+				}
+				if ci, ok := in.(ssa.CallInstruction); ok {
+					if _, _, isLock := an.H06LockOp(ci.Common()); isLock {
+						return "function value touching guarded state is captured by " + an.FuncName(wf) + ", which operates a mutex itself"
+					}
+				}
+			}
+			for i, bnd := range r.Bindings {
+				if bnd != what || i >= len(wf.FreeVars) {
+					continue
+				}
+				if why := inner(wf.FreeVars[i]); why != "" {
+					return why
+				}
+			}
+			return track(r, fr, depth+1)
+		}
+		track = func(v ssa.Value, fr *frame, depth int) string {
+			if depth > 8 {
+				return "function value touching guarded state is handed on too many times to follow"
+			}
+			refs := v.Referrers()
+			if refs == nil {
+				return "function value touching guarded state flows through a value without use list"
+			}
+			heldHere := func(at ssa.Instruction) (map[string]int, bool) {
+				if fr.top {
+					return an.H06HeldAt(at), true
+				}
+				return fr.ambient, fr.byEntry
+			}
+			for _, ref := range *refs {
+				switch r := ref.(type) {
+				case *ssa.DebugRef:
+					continue
+				case *ssa.BinOp:
+					if r.Op == token.EQL || r.Op == token.NEQ {
+						continue // `if fn != nil`: a comparison does not run it
+					}
+					return "function value touching guarded state is stored or returned"
+				case *ssa.Go:
+					return "function value touching guarded state is started as a goroutine"
+				case *ssa.MakeClosure:
+					// captured by another literal: its body may invoke the value whenever the literal itself runs
+					if why := captured(r, v, fr, depth, func(fv *ssa.FreeVar) string { return track(fv, &frame{assume: true}, depth+1) }); why != "" {
+						return why
+					}
+					continue
+				case *ssa.Store:
+					// spilled into a variable cell (a parameter or local captured by reference): follow the loads of the cell
+					cell, isCell := r.Addr.(*ssa.Alloc)
+					if !isCell || r.Val != v {
+						return "function value touching guarded state is stored or returned"
+					}
+					for _, cref := range *cell.Referrers() {
+						switch cr := cref.(type) {
+						case *ssa.DebugRef:
+						case *ssa.Store:
+							if cr != r {
+								return "function value touching guarded state is kept in a variable that is assigned more than once"
+							}
+						case *ssa.UnOp:
+							if cr.Op != token.MUL {
+								return "function value touching guarded state is stored or returned"
+							}
+							if why := track(cr, fr, depth+1); why != "" {
+								return why
+							}
+						case *ssa.MakeClosure:
+							why := captured(cr, cell, fr, depth, func(fv *ssa.FreeVar) string {
+								for _, fref := range *fv.Referrers() {
+									switch x := fref.(type) {
+									case *ssa.DebugRef:
+									case *ssa.UnOp:
+										if x.Op != token.MUL {
+											return "function value touching guarded state is stored or returned"
+										}
+										if why := track(x, &frame{assume: true}, depth+1); why != "" {
+											return why
+										}
+									default:
+										return "function value touching guarded state is kept in a variable that a literal assigns or hands on"
+									}
+								}
+								return ""
+							})
+							if why != "" {
+								return why
+							}
+						default:
+							return "function value touching guarded state is stored or returned"
+						}
+					}
+					continue
+				case *ssa.Return:
+					if fr.top || fr.site == nil || fr.parent == nil {
+						return "function value touching guarded state is stored or returned"
+					}
+					cv, isCall := fr.site.(*ssa.Call)
+					if !isCall || len(r.Results) != 1 {
+						return "function value touching guarded state is returned among several results"
+					}
+					if why := track(cv, fr.parent, depth+1); why != "" {
+						return why
+					}
+					continue
+				}
+				ci, isCall := ref.(ssa.CallInstruction)
+				if !isCall {
+					return "function value touching guarded state is stored or returned"
+				}
+				_, isDefer := ref.(*ssa.Defer)
+				if ci.Common().Value == v {
+					for _, a := range ci.Common().Args {
+						if a == v {
+							return "function value touching guarded state is passed to itself"
+						}
+					}
+					if fr.assume {
+						continue
+					}
+					if fr.top && v == ssa.Value(mc) {
+						continue // direct call: checked at the call site by the lockset analysis
+					}
+					if fr.top && isDefer {
+						return "function value touching guarded state is deferred after being handed on"
+					}
+					held, byEntry := heldHere(ref)
+					if miss := satisfied(held, byEntry); miss != "" {
+						return "cannot show that " + miss + " is held when " + an.FuncName(ref.Parent()) + " invokes the function value"
+					}
+					continue
+				}
+				callee := ci.Common().StaticCallee()
+				if callee == nil || !inSet[an.Orig(callee)] && an.Orig(callee).Pkg != caller.Pkg {
+					return "function value touching guarded state is passed to a function outside the package"
+				}
+				if callee.Blocks == nil {
+					return "function value touching guarded state is passed to a function without body"
+				}
+				if fr.assume || fr.top && isDefer {
+					return "function value touching guarded state is handed on from a deferred call or a capturing literal"
+				}
+				idx := -1
+				for i, a := range ci.Common().Args {
+					if a == v {
+						if idx >= 0 {
+							return "function value passed twice"
+						}
+						idx = i
+					}
+				}
+				if idx < 0 || idx >= len(callee.Params) {
+					return "function value touching guarded state is passed in an unexpected position"
+				}
+				held, byEntry := heldHere(ref)
+				invs, locking, ok := invocations(callee, idx)
+				if locking {
+					// the helper takes the lock itself (`withLock(fn)`): what it holds at every invocation of fn, renamed from
+					// its parameters to the arguments of this call, on top of what is held at the call
+					if !ok {
+						return "function value touching guarded state is passed to " + an.FuncName(callee) + ", which does more than calling it synchronously"
+					}
+					var inner map[string]int
+					for _, inv := range invs {
+						h := map[string]int{}
+						for path, mode := range an.H06HeldAt(inv) {
+							root, rest := path, ""
+							if i := strings.Index(path, "."); i >= 0 {
+								root, rest = path[:i], path[i:]
+							}
+							var k int
+							if n, err := fmt.Sscanf(root, "p%d", &k); err != nil || n != 1 || k >= len(ci.Common().Args) {
+								continue
+							}
+							h[c06LockPath(ci.Common().Args[k], rest)] = mode
+						}
+						if inner == nil {
+							inner = h
+						} else {
+							for k, v := range inner {
+								if h[k] < v {
+									inner[k] = h[k]
+								}
+							}
+						}
+					}
+					if !fr.top {
+						// the arguments are named in this frame, the needs in the creating frame: only what was already held counts
+						inner = nil
+					}
+					merged := map[string]int{}
+					for k, m := range held {
+						merged[k] = m
+					}
+					for k, m := range inner {
+						if merged[k] < m {
+							merged[k] = m
+						}
+					}
+					if miss := satisfied(merged, false); miss != "" {
+						if miss2 := satisfied(held, byEntry); miss2 != "" {
+							return "cannot show that " + miss + " is held when " + an.FuncName(callee) + " invokes the function value"
+						}
+					}
+					continue
+				}
+				for _, in := range an.Instrs(callee, true) {
+					if _, isGo := in.(*ssa.Go); isGo {
+						return "function value touching guarded state is passed to " + an.FuncName(callee) + ", which starts goroutines"
+					}
+				}
+				// the helper operates no mutex: everything it does with the value happens under what is held at this call
+				if why := track(callee.Params[idx], &frame{ambient: held, byEntry: byEntry, site: ci, parent: fr}, depth+1); why != "" {
+					return why
+				}
+			}
+			return ""
+		}
+		if why := track(mc, &frame{top: true}, 0); why != "" {
+			return vUnsure, why
 		}
 		return vGood, ""
 	}
@@ -376,4 +573,126 @@ func c06LockRule(c *rt.Ctx, pkgs []string, table an.LockTable) {
 	for _, f := range missing {
 		c.Unsure("table "+f, token.NoPos, "guarded field of the frozen table is never accessed (renamed or removed?)")
 	}
+}
+
+// c06LockPath names the mutex reached from value v through the field path rest (".db.mu"). Where v itself has no
+// access path (the result of a constructor call, a local composite), the leading fields of rest are resolved through
+// the construction: `call := db.beginAwait(ctx)` with `return awaitCall{db: db}` makes call.db.mu the same as db.mu.
+func c06LockPath(v ssa.Value, rest string) string {
+	for i := 0; i < 6; i++ {
+		p := an.H06AccessPath(v)
+		if !strings.HasPrefix(p, "?") && !strings.HasPrefix(p, "alloc:") {
+			return p + rest
+		}
+		if !strings.HasPrefix(rest, ".") {
+			return p + rest
+		}
+		field, tail := rest[1:], ""
+		if j := strings.Index(field, "."); j >= 0 {
+			field, tail = field[:j], field[j:]
+		}
+		w := c06FieldOf(v, field, 0)
+		if w == nil {
+			return p + rest
+		}
+		v, rest = w, tail
+	}
+	return "?" + rest
+}
+
+// c06FieldOf returns the value that field `field` of the struct value v certainly has, in the frame of v: v is a local
+// composite (one store to that field), or the single result of a static call all of whose returns are such composites
+// with the field set from a parameter (mapped to the argument of the call).
+func c06FieldOf(v ssa.Value, field string, depth int) ssa.Value {
+	if depth > 3 {
+		return nil
+	}
+	v = an.Unwrap(v)
+	fromAlloc := func(a *ssa.Alloc) ssa.Value {
+		var val ssa.Value
+		n := 0
+		for _, ref := range *a.Referrers() {
+			switch r := ref.(type) {
+			case *ssa.FieldAddr:
+				st, ok := c06StructOf(r.X.Type())
+				if !ok || r.Field >= st.NumFields() || st.Field(r.Field).Name() != field {
+					continue
+				}
+				for _, fr := range *r.Referrers() {
+					switch s := fr.(type) {
+					case *ssa.Store:
+						if s.Addr == ssa.Value(r) {
+							val = s.Val
+							n++
+						}
+					case *ssa.UnOp, *ssa.DebugRef, *ssa.FieldAddr:
+					default:
+						n += 2 // address escapes
+					}
+				}
+			case *ssa.Store:
+				if r.Addr == ssa.Value(a) {
+					// whole-struct store: resolve inside the stored value
+					if w := c06FieldOf(r.Val, field, depth+1); w != nil {
+						val = w
+						n++
+					} else {
+						n += 2
+					}
+				}
+			}
+		}
+		if n == 1 {
+			return val
+		}
+		return nil
+	}
+	switch x := v.(type) {
+	case *ssa.UnOp:
+		if a, ok := x.X.(*ssa.Alloc); ok && x.Op == token.MUL {
+			return fromAlloc(a)
+		}
+	case *ssa.Alloc:
+		return fromAlloc(x)
+	case *ssa.Call:
+		callee := x.Call.StaticCallee()
+		if callee == nil || callee.Blocks == nil || callee.Signature.Results().Len() != 1 {
+			return nil
+		}
+		var out ssa.Value
+		for _, b := range callee.Blocks {
+			ret, ok := b.Instrs[len(b.Instrs)-1].(*ssa.Return)
+			if !ok {
+				continue
+			}
+			w := c06FieldOf(ret.Results[0], field, depth+1)
+			par, isPar := w.(*ssa.Parameter)
+			if w == nil || !isPar {
+				return nil
+			}
+			k := -1
+			for i, p := range callee.Params {
+				if p == par {
+					k = i
+				}
+			}
+			if k < 0 || k >= len(x.Call.Args) {
+				return nil
+			}
+			if out != nil && out != x.Call.Args[k] {
+				return nil
+			}
+			out = x.Call.Args[k]
+		}
+		return out
+	}
+	return nil
+}
+
+func c06StructOf(t types.Type) (*types.Struct, bool) {
+	if p, ok := t.Underlying().(*types.Pointer); ok {
+		t = p.Elem()
+	}
+	st, ok := t.Underlying().(*types.Struct)
+	return st, ok
 }
